@@ -19,6 +19,11 @@ Has(e, prop) == \E i \in 1..Len(e.p) : e.p[i] = prop
 \* IF (not \/) so that TLC evaluates the judgement as an expression, not as two actions
 Chk(e, prop, clause, cond) == IF Has(e, prop) THEN (IF cond THEN TRUE ELSE PrintT(<< "REJECT", e.id, prop, clause >>))
                               ELSE TRUE
+\* same with a detail (which cut, which index) appended to the REJECT tuple
+ChkD(e, prop, clause, cond, detail) ==
+    IF Has(e, prop) THEN (IF cond THEN TRUE ELSE PrintT(<< "REJECT", e.id, prop, clause, detail >>)) ELSE TRUE
+\* a premise the DRIVER must establish; its failure is a machinery failure, never a verdict
+Premise(e, clause, cond) == IF cond THEN TRUE ELSE PrintT(<< "REJECT", e.id, "MACHINERY", clause >>)
 
 \* ---- value encode/decode events --------------------------------------------
 SpecEnc(pos, lg, v) ==
@@ -216,6 +221,152 @@ UnmarshalingExc(e) ==
     /\ Chk(e, "C17", "unmarshaling_exception_base", e.base)
     /\ UNCHANGED << legacy, tz >>
 
+\* ---- frame.unmarshal on arbitrary bytes (C05, C06, C08, C09, C13) ------------
+SameDecoded(sf, cf) ==
+    /\ cf.cls = sf.cls
+    /\ CASE sf.cls = "ContentHeader" ->
+               /\ cf.class_id = sf.class_id /\ cf.weight = sf.weight /\ cf.size = sf.size
+               /\ \A nm \in PropNames : SameValue(cf.props[nm], sf.props[nm])
+         [] sf.cls = "ContentBody" -> cf.b = sf.b
+         [] sf.cls = "Heartbeat" -> TRUE
+         [] sf.cls = "ProtocolHeader" -> cf.v = sf.v
+         [] OTHER -> LET m == MethodByName(sf.cls) IN
+                     \A i \in 1..Len(m.args) : SameValue(cf.vals[m.args[i].n], sf.vals[m.args[i].n])
+
+KindOfType(ty, cls) == CASE ty = 1 -> cls \in MethodNames
+                         [] ty = 2 -> cls = "ContentHeader"
+                         [] ty = 3 -> cls = "ContentBody"
+                         [] ty = 8 -> cls = "Heartbeat"
+                         [] OTHER -> FALSE
+
+\* whatever is returned is what the frame's own 7-byte header says
+EnvelopeTruth(b, o) ==
+    IF o.f.cls = "ProtocolHeader" THEN Take(b, 4) = AMQPLit /\ o.n = 8 /\ Len(b) >= 8
+    ELSE /\ Len(b) >= 7 /\ HdrSize(b) >= 0
+         /\ o.n = HdrSize(b) + 8 /\ o.n <= Len(b) /\ b[o.n] = FrameEnd
+         /\ o.ch = HdrChannel(b)
+         /\ KindOfType(HdrType(b), o.f.cls)
+
+UnmarshalEv(e) ==
+    LET b    == e.b
+        spec == Unmarshal(b)
+        o    == e.out
+        okc  == o.r = "ok"
+        wf   == spec.k = "frame"
+    IN
+    /\ (IF "wf" \in DOMAIN e THEN Premise(e, "crafted_frame_is_well_formed", wf) ELSE TRUE)
+    /\ Chk(e, "C05", "accepts_well_formed", wf => okc)
+    /\ Chk(e, "C05", "consumes_whole_frame", (wf /\ okc) => (o.n = spec.n /\ o.ch = spec.ch))
+    /\ Chk(e, "C05", "reference_values", (wf /\ okc) => SameDecoded(spec.f, o.f))
+    /\ Chk(e, "C13", "no_validation_on_receive", wf => (okc /\ o.n = spec.n /\ SameDecoded(spec.f, o.f)))
+    /\ Chk(e, "C06", "envelope_truth", okc => EnvelopeTruth(b, o))
+    /\ Chk(e, "C06", "valid_frame_decoded_exactly",
+           wf => (okc /\ o.n = spec.n /\ o.ch = spec.ch /\ SameDecoded(spec.f, o.f)))
+    /\ Chk(e, "C09", "only_library_exception", o.r = "exc" => (o.lib /\ o.type = "UnmarshalingException"))
+    /\ Chk(e, "C08", "terminates_within_step_budget", o.r # "budget")
+    /\ Chk(e, "C08", "steps_linear_in_input", e.steps <= 16 * Len(b) + 256)
+    /\ Chk(e, "C08", "memory_proportional_to_input", e.peak <= 256 * Len(b) + 1048576)
+    /\ UNCHANGED << legacy, tz >>
+
+\* every strict prefix of a valid frame (C07)
+CutOk(c)  == c.r = "exc" /\ c.lib /\ c.type = "UnmarshalingException"
+CutSet(e) ==
+    LET b == e.b full == Unmarshal(b) n == Len(e.cuts)
+        bad1 == { i \in 1..n : e.cuts[i].r = "ok" }
+        bad2 == { i \in 1..n : e.cuts[i].r = "exc" /\ ~CutOk(e.cuts[i]) }
+        bad3 == { i \in 1..n : e.cuts[i].r = "ok" /\ e.cuts[i].n > e.cuts[i].k }
+    IN
+    /\ Premise(e, "cutset_of_a_valid_frame", full.k = "frame" /\ full.n = Len(b)
+                                            /\ \A i \in 1..n : e.cuts[i].k >= 0 /\ e.cuts[i].k < Len(b))
+    /\ ChkD(e, "C07", "prefix_never_yields_a_frame", bad1 = {}, IF bad1 = {} THEN -1 ELSE e.cuts[CHOOSE i \in bad1 : TRUE].k)
+    /\ ChkD(e, "C07", "prefix_raises_only_UnmarshalingException", bad2 = {},
+            IF bad2 = {} THEN -1 ELSE e.cuts[CHOOSE i \in bad2 : TRUE].k)
+    /\ ChkD(e, "C07", "never_consumes_more_than_supplied", bad3 = {}, IF bad3 = {} THEN -1 ELSE e.cuts[CHOOSE i \in bad3 : TRUE].k)
+    /\ Chk(e, "C07", "complete_frame_is_returned", e.full.r = "ok" /\ e.full.n = Len(b))
+    /\ UNCHANGED << legacy, tz >>
+
+\* header peek (C20)
+FramePartsEv(e) ==
+    LET spec == FrameParts(e.b) o == e.out IN
+    /\ Chk(e, "C20", "never_raises", o.r = "ok")
+    /\ Chk(e, "C20", "header_fields_big_endian_unsigned",
+           (spec.ok /\ o.r = "ok") => (o.shape /\ o.type = spec.type /\ o.ch = spec.ch /\ o.size = spec.size))
+    /\ Chk(e, "C20", "short_buffer_gives_no_frame_triple",
+           (~spec.ok /\ o.r = "ok") => (o.shape /\ o.type = 0 /\ o.ch = 0 /\ o.size_none))
+    /\ UNCHANGED << legacy, tz >>
+
+\* encode a frame, peek at header + tail, read size + 8 bytes, decode (C20)
+Peek(e) ==
+    LET okc == e.out.r = "ok" IN
+    /\ Premise(e, "peek_of_an_encodable_frame", okc /\ e.in.cls # "ProtocolHeader")
+    /\ Chk(e, "C20", "peek_never_raises", e.fp.r = "ok" /\ e.fp.shape)
+    /\ Chk(e, "C20", "size_plus_8_is_frame_length", okc => e.fp.size = U32(Len(e.out.b) - 8))
+    /\ Chk(e, "C20", "peeked_channel", okc => e.fp.ch = (IF e.in.cls = "Heartbeat" THEN 0 ELSE e.ch))
+    /\ Chk(e, "C20", "decoder_accepts_size_plus_8_bytes",
+           okc => (e.un.r = "ok" /\ e.un.n = Len(e.out.b) /\ e.un.ch = e.fp.ch /\ e.un.f.cls = e.in.cls))
+    /\ UNCHANGED << legacy, tz >>
+
+\* decode.embedded_value / field_table / field_array on grammar-generated bytes (C05)
+DecodeValueEv(e) ==
+    LET spec == SpecDec(e.pos, e.b) o == e.out okc == o.r = "ok" IN
+    /\ Chk(e, "C05", "accepts_well_formed_value", spec.ok => okc)
+    /\ Chk(e, "C05", "consumes_value", (spec.ok /\ okc) => o.n = spec.n)
+    /\ Chk(e, "C05", "reference_value", (spec.ok /\ okc) => SameValue(o.v, spec.v))
+    /\ Chk(e, "C05", "unrepresentable_timestamp_refused",
+           (e.pos = "top" /\ Len(e.b) = 9 /\ e.b[1] = Tg.T /\ ~spec.ok) => o.r = "exc")
+    /\ UNCHANGED << legacy, tz >>
+
+\* ---- construction-time and marshal-time validation (C13) ---------------------
+IsProps(cls) == cls = "Basic.Properties"
+PropArgValid(n, v) ==
+    \/ v.t = "none"
+    \/ CASE n = "cluster_id" -> v.t = "str" /\ v.cp = <<>>
+         [] n = "delivery_mode" -> v.t = "int" /\ ~v.neg /\ v.mag \in {<<1>>, <<2>>}
+         [] OTHER -> TRUE
+
+Construct(e) ==
+    LET given == DOMAIN e.args
+        valid == IF IsProps(e.cls) THEN \A n \in given : (n # "_" => PropArgValid(n, e.args[n]))
+                 ELSE LET m == MethodByName(e.cls) IN
+                      \A i \in 1..Len(m.args) : (m.args[i].n \in given) => ArgValid(e.cls, m.args[i], e.args[m.args[i].n])
+    IN
+    /\ Chk(e, "C13", "valid_arguments_accepted", valid => e.out.r = "ok")
+    /\ Chk(e, "C13", "broken_constraint_raises_ValueError", ~valid => (e.out.r = "exc" /\ e.out.type = "ValueError"))
+    /\ UNCHANGED << legacy, tz >>
+
+SetThenMarshal(e) ==
+    LET m == MethodByName(e.cls) valid == Valid(m, e.in.vals) IN
+    /\ Chk(e, "C13", "marshal_rejects_broken_constraint", ~valid => (e.out.r = "exc" /\ e.out.type = "ValueError"))
+    /\ Chk(e, "C13", "marshal_accepts_valid_values", valid => ~(e.out.r = "exc" /\ e.out.type = "ValueError"))
+    /\ UNCHANGED << legacy, tz >>
+
+CharBlock(e) ==
+    /\ Chk(e, "C13", "name_character_class", SeqSet(e.accepted) = { c \in e.lo..e.hi : c \in NameChars })
+    /\ Chk(e, "C13", "only_ValueError", e.other = <<>>)
+    /\ UNCHANGED << legacy, tz >>
+
+\* ---- mapping protocol (C19) --------------------------------------------------
+Observe(e) ==
+    LET names == IF IsProps(e.cls) THEN [i \in 1..14 |-> Properties[i].n] ELSE ArgNames(MethodByName(e.cls))
+        types == IF IsProps(e.cls) THEN [i \in 1..14 |-> Properties[i].ty]
+                 ELSE [i \in 1..Len(names) |-> MethodByName(e.cls).args[i].ty]
+        n == Len(names)
+        ok == e.r = "ok"
+    IN
+    /\ Chk(e, "C19", "observers_do_not_raise", ok)
+    /\ Chk(e, "C19", "iteration_names_in_wire_order", ok => e.iter_names = names)
+    /\ Chk(e, "C19", "iteration_pairs_current_values",
+           (ok /\ Len(e.iter_vals) = n) => \A i \in 1..n : e.iter_vals[i] = e.attrs[names[i]])
+    /\ Chk(e, "C19", "dict_equals_attributes",
+           (ok /\ Len(e.dict_vals) = n) => (e.dict_names = names /\ \A i \in 1..n : e.dict_vals[i] = e.attrs[names[i]]))
+    /\ Chk(e, "C19", "length", ok => e.len = n)
+    /\ Chk(e, "C19", "membership", ok => ((\A i \in 1..Len(e.contains) : e.contains[i]) /\ Len(e.contains) = n
+                                          /\ \A i \in 1..Len(e.contains_probe) : ~e.contains_probe[i]))
+    /\ Chk(e, "C19", "item_access", (ok /\ Len(e.getitem) = n) => \A i \in 1..n : e.getitem[i] = e.attrs[names[i]])
+    /\ Chk(e, "C19", "attribute_list", ok => e.attributes = names)
+    /\ Chk(e, "C19", "wire_types", ok => e.types = types)
+    /\ UNCHANGED << legacy, tz >>
+
 ToggleArg(a) == IF a = "false" THEN FALSE ELSE TRUE      \* "true", "noarg" -> TRUE
 Toggle(e) == legacy' = ToggleArg(e.arg) /\ UNCHANGED tz
 SetTZ(e)  == tz' = e.z /\ UNCHANGED legacy
@@ -236,6 +387,15 @@ Step == /\ l <= Len(Events)
              [] e.a = "ReplyCode"   -> ReplyCode(e)
              [] e.a = "Constants"   -> ConstantsEv(e)
              [] e.a = "UnmarshalingExc" -> UnmarshalingExc(e)
+             [] e.a = "Unmarshal"   -> UnmarshalEv(e)
+             [] e.a = "CutSet"      -> CutSet(e)
+             [] e.a = "FrameParts"  -> FramePartsEv(e)
+             [] e.a = "Peek"        -> Peek(e)
+             [] e.a = "DecodeValue" -> DecodeValueEv(e)
+             [] e.a = "Construct"   -> Construct(e)
+             [] e.a = "SetThenMarshal" -> SetThenMarshal(e)
+             [] e.a = "CharBlock"   -> CharBlock(e)
+             [] e.a = "Observe"     -> Observe(e)
              [] e.a = "Toggle"      -> Toggle(e)
              [] e.a = "SetTZ"       -> SetTZ(e)
 
